@@ -72,6 +72,11 @@ def cases(tier, seed):
             for vals in itertools.product((0, 1, 2), repeat=M * B):
                 out.append(dict(part="cov", M=M, B=B, vals=list(vals)))
         out.append(dict(part="cov", M=M, B=B, vals=[C.PRIMES[i] * (1 + i % 3) for i in range(M * B)]))
+    # (e) end to end: remove patch k from every input frame and measure again (differential oracle)
+    pas = ("b0", "w0", "n0") if tier == "quick" else ("c0", "b0", "w0", "n0", "f0")
+    pbs = ("b1", "n0") if tier == "quick" else ("c1", "b1", "n0", "n1")
+    for conf, pa, za, pb, npatch in itertools.product((0, 3), pas, (0, -1), pbs, (3,)):
+        out.append(dict(part="e2e", conf=conf, pa=pa, za=za, pb=pb, npatch=npatch, seed=seed))
     out.sort(key=lambda c: (c.get("N", c.get("M", 0)), c.get("B", 0)))
     return out
 
@@ -293,9 +298,58 @@ def run_cov(case):
     return v, bool(ecov.any())
 
 
+def run_e2e(case):
+    """Jackknife sample k of the real pipeline == the same pipeline with patch k physically removed."""
+    import yaw
+    from checks import c13
+    from vlib import runner, worlds
+
+    c13.setup()
+    conf, objs = c13.build(case)
+    N = case["npatch"]
+    world = "equator"
+    cats = [worlds.realise(world, o, N) for o in objs]
+    if min(float(c["margin"].min()) for c in cats) < 1e-9 or c13.near_limit(conf, world, cats, N):
+        return [], False
+    full = c13.measure(conf, world, objs, N, cats=cats)
+    edges, closed = worlds.BINNINGS[conf["binning"]]
+    config = yaw.Configuration.create(rmin=0.1, rmax=1.0, unit="deg", edges=edges, closed=closed)
+    d = runner.fresh_dir("c03e")
+    hist_full = yaw.HistData.from_catalog(worlds.make_catalog(d + "/R", cats[0], worlds.centres(world, N)), config)
+    v = []
+    nontrivial = False
+    for k in range(N):
+        keep = [i for i in range(N) if i != k]
+        red = []
+        for c in cats:
+            m = c["patch"] != k
+            r = {key: (np.asarray(val)[m] if val is not None and key not in ("names",) else val) for key, val in c.items()}
+            r["patch"] = np.array([keep.index(p) for p in r["patch"]])
+            red.append(r)
+        part = c13.measure(conf, world, objs, N - 1, cats=red, cen_perm=np.array(keep), cen_n=N)
+        for name, sname in (("data", "samples"), ("nz", "nzs"), ("auto", None)):
+            if sname is None:
+                continue
+            for s_ in range(len(full[name])):
+                want = np.asarray(full[sname][s_])[k]
+                got = np.asarray(part[name][s_])
+                if np.isfinite(want).any():
+                    nontrivial = True
+                if not c13.close(want, got, rtol=1e-9):
+                    v.append(viol(f"C03/e2e/{sname}",
+                                  f"jackknife sample {k} of {sname} (scale {s_}) is {want.tolist()} but the pipeline with "
+                                  f"patch {k} removed from every catalog gives {got.tolist()}", case))
+                    break
+        hr = yaw.HistData.from_catalog(worlds.make_catalog(f"{d}/R{k}", red[0], worlds.centres(world, N)[keep]), config)
+        if not np.array_equal(hist_full.samples[k], hr.data):
+            v.append(viol("C03/e2e/hist-samples", f"histogram sample {k} {hist_full.samples[k].tolist()} != histogram "
+                          f"without patch {k} {hr.data.tolist()}", case))
+    return v, nontrivial
+
+
 def run_case(case):
     part = case["part"]
-    fn = dict(sum=run_sum, corrfunc=run_corrfunc, hist=run_hist, cov=run_cov)[part]
+    fn = dict(sum=run_sum, corrfunc=run_corrfunc, hist=run_hist, cov=run_cov, e2e=run_e2e)[part]
     viols, nontrivial = fn(case)
     res = dict(nontrivial=bool(nontrivial), key=case)
     if viols:
